@@ -24,6 +24,7 @@ var (
 	replay = flag.String("replay", "", "replay file")
 	specs  = flag.String("specs", "", "comma separated vocabulary files (default: the four shipped)")
 	propID = flag.String("as", "", "report under this property id (used by C15)")
+	noMapVocab = flag.String("nomap-vocab", "", "C15: do not generate the 'Map' spelling for natural-language properties of this vocabulary in C01 (the defect is reported once, by C12)")
 )
 
 var O *onto.Onto
